@@ -7,7 +7,7 @@
    Lk n c p s = _local_subscriptions["c.p.s"] of n, Rk n x p s = (x in _remote_subscriptions["p.s"] of n),
    up s sd = side sd considers the connection open. *)
 From Coq Require Import List NArith ZArith Bool.
-Require Import QV.C07.Model QV.C07.ProofsLib QV.C08.Proofs QV.C08.Effects QV.C08.Proofs2 QV.C08.ProofsWait.
+Require Import QV.C07.Model QV.C07.ProofsLib QV.C08.Proofs QV.C08.Effects QV.C08.Proofs2 QV.C08.ProofsWait QV.C08.ProofsStar.
 Import ListNotations.
 Open Scope N_scope.
 
@@ -43,6 +43,36 @@ Theorem C08_quiescent : forall a b oa ob s sd p sg,
    Lk (nd s sd) (n_name (nd s (negb sd))) p sg <> None).
 Proof. exact quiescent. Qed.
 Print Assumptions C08_quiescent.
+
+(* N contexts, star topology: a publisher context h with ANY number of subscriber contexts.  [sysN] is the
+   N-context system the correspondence runs on (same [node_step], same network semantics as [sys2]); l lists
+   the contexts (names without '.') with their initial objects; a history is star-shaped when connections,
+   deliveries and closes are between h and another context ([labelN_ok]); every context runs the complete
+   API (spokes publish too, the hub may subscribe to spokes).  In every reachable state, for EVERY spoke x:
+   when nothing is in flight between x and h, x has no request outstanding and both ends agree on the link,
+   h lists x as remote subscriber of its signal p.sg  <->  x has local receivers for h.p.sg.
+   What is not covered (full N-context lift): a context that subscribes to SEVERAL publisher contexts at
+   once.  For that the subscriber-side clauses of the pair invariant (pending requests / connection-level
+   pending table / "closed end is clean") have to be relativised to one peer, and a frame lemma is needed
+   for the error replies of closing ANOTHER connection (ids tracked by connection (x,z) never belong to
+   requests towards y); the publisher-side half, the per-destination bookkeeping and the N-context state
+   lemmas proved here carry over unchanged. *)
+Theorem C08_quiescent_star : forall h l ls S x X Y p sg,
+  (exists oh, getn (initN l) h = Some (init_node h oh)) -> (forall z objs, In (z, objs) l -> nodot z = true) ->
+  runN0 (initN l) ls = Some S -> Forall (labelN_ok h) ls ->
+  x <> h -> getn S x = Some X -> getn S h = Some Y ->
+  getc S x h = [] -> getc S h x = [] -> n_pid X = [] -> can_send X h = can_send Y x ->
+  nodot p = true ->
+  (Rk Y x p sg = true <-> Lk X h p sg <> None).
+Proof. exact star_quiescent. Qed.
+Print Assumptions C08_quiescent_star.
+
+(* ... and the pair invariant holds for every (spoke, hub) pair in every reachable state *)
+Theorem C08_invariant_star : forall h l ls S,
+  (exists oh, getn (initN l) h = Some (init_node h oh)) -> (forall z objs, In (z, objs) l -> nodot z = true) ->
+  runN0 (initN l) ls = Some S -> Forall (labelN_ok h) ls -> StarInv h S.
+Proof. intros h l ls S Hh Hnd Hr Hf. eapply runN_StarInv; eauto. apply initN_StarInv; assumption. Qed.
+Print Assumptions C08_invariant_star.
 
 (* the invariant behind it holds in every reachable state, quiescent or not (per signal: no request in
    flight / the request in flight / the reply in flight with what it will make true; "publisher removed"
@@ -160,4 +190,21 @@ Proof.
   split.
   - eexists. split; [vm_compute; reflexivity|]. split; [repeat constructor|]. vm_compute. repeat split.
   - eexists. split; [vm_compute; reflexivity|]. vm_compute. repeat split.
+Qed.
+
+(* non-vacuity of the star theorem: hub m with spokes n and k; both subscribe, k unsubscribes, everything
+   delivered: m lists n but not k *)
+Example C08_star_example :
+  let m := [109] in let n := [110] in let k := [107] in let p := [112] in let sg := [115] in
+  let ls := [LConnect n m; LConnect m k; LNode n (ISub 1 m p sg 1); LNode k (ISub 1 m p sg 1);
+             LDeliver n m; LDeliver k m; LDeliver m n; LDeliver m k; LNode n (ISubEnd 1); LNode k (ISubEnd 1);
+             LNode k (IUnsub m p sg 1); LDeliver k m; LDeliver m k] in
+  exists S X K Y, runN0 (initN [(m, [p]); (n, []); (k, [])]) ls = Some S /\ Forall (labelN_ok m) ls /\
+    getn S n = Some X /\ getn S k = Some K /\ getn S m = Some Y /\
+    getc S n m = [] /\ getc S m n = [] /\ getc S k m = [] /\ getc S m k = [] /\ n_pid X = [] /\ n_pid K = [] /\
+    Rk Y n p sg = true /\ Lk X m p sg = Some [1] /\ Rk Y k p sg = false /\ Lk K m p sg = None.
+Proof.
+  eexists. eexists. eexists. eexists. split; [vm_compute; reflexivity|]. split.
+  - repeat (apply Forall_cons; [split; [first [exact I | left; reflexivity | right; reflexivity] | first [exact I | discriminate]]|]). apply Forall_nil.
+  - vm_compute. repeat split.
 Qed.
